@@ -446,6 +446,19 @@ pub fn gen_cases(cfg: &RunCfg) -> Vec<Case> {
             kind: "sequence-of-by-reference",
         });
     }
+    // lists of small numbers in every length up to six, with and without blanks: `{0,0,1,65}` is also the spelling of
+    // a Quadruple and `{0,65}` of a Tuple (X.680 41.8 / 41.12) — under a list type they are lists
+    for (li, list) in [vec![0i128, 0, 0, 0], vec![0, 10, 20, 30], vec![127, 0, 0, 1], vec![255, 255, 255, 0], vec![0, 0, 1, 65], vec![0, 65], vec![1, 1], vec![7], vec![0, 0, 0], vec![0, 1, 2, 3, 4], vec![0, 0, 0, 0, 0, 0]].iter().enumerate() {
+        let src = format!("( list {} )", sx_list(list.iter().map(|n| format!("( int {n} )"))));
+        let spaced = format!("{{ {} }}", list.iter().map(|n| n.to_string()).collect::<Vec<_>>().join(", "));
+        let tight = format!("{{{}}}", list.iter().map(|n| n.to_string()).collect::<Vec<_>>().join(","));
+        for (ty, kind) in [("SEQUENCE OF INTEGER", "sequence-of-small-numbers"), ("Li", "sequence-of-small-numbers-by-reference")] {
+            let i = next();
+            cases.push(Case { asn: format!("v{i} {ty} ::= {}", if li % 2 == 0 { &tight } else { &spaced }), site: Site::Const(format!("V{i}")), src: src.clone(), kind });
+        }
+        let e = next();
+        cases.push(Case { asn: format!("D{e} ::= SEQUENCE {{ f Li DEFAULT {} }}", if li % 2 == 0 { &spaced } else { &tight }), site: Site::DefaultFn(format!("d{e}_f_default")), src: src.clone(), kind: "sequence-of-small-numbers-default" });
+    }
     value("IA5String", "\"12:30\"", format!("( cstring {} )", hex("12:30")), "cstring-time-like", &mut cases);
     value("Ch", "bo: TRUE", format!("( choice {} ( bool t ) )", hex("bo")), "choice", &mut cases);
     value("Ch", "st: \"hi\"", format!("( choice {} ( cstring {} ) )", hex("st"), hex("hi")), "choice", &mut cases);
